@@ -181,6 +181,26 @@ func (fr *frame) call(v *ssa.Call, cc *ssa.CallCommon, st *State, R string, b *s
 		return
 	}
 	kind, ctr, callee := fr.classifyCall(cc)
+	if callee != nil && len(cc.Args) >= 2 {
+		full := calleePkgPath(callee) + "." + callee.Name()
+		if full == "k8s.io/client-go/util/retry.RetryOnConflict" || full == "k8s.io/apimachinery/pkg/util/wait.ExponentialBackoff" {
+			fnArg := cc.Args[1]
+			for {
+				if ct, ok := fnArg.(*ssa.ChangeType); ok {
+					fnArg = ct.X
+					continue
+				}
+				break
+			}
+			if mc, ok := fr.closures[fnArg]; ok {
+				if cctr := fc.eng.ContractFor(mc.Fn.(*ssa.Function)); cctr != nil {
+					resName = declareResults()
+					fr.retryCall(v, resName, full, cctr, mc, st, R)
+					return
+				}
+			}
+		}
+	}
 	switch kind {
 	case callIntrinsic:
 		resName = declareResults()
@@ -904,6 +924,18 @@ func (fr *frame) resolveModItem(env *Env, item string) []modTarget {
 		}
 		return []modTarget{{key: k, ref: x.T}}
 	case *ECall:
+		if e.Fun == "fields" && len(e.Args) == 2 {
+			// fields("T", "f"): field f of EVERY object of struct type T
+			ts, ok1 := e.Args[0].(*EStr)
+			fs, ok2 := e.Args[1].(*EStr)
+			if ok1 && ok2 {
+				T, _ := fc.resolveType(ts.Val, env.tpkg)
+				if _, path := lookupFieldAnyPkg(T, fs.Val); len(path) > 0 {
+					k, _ := fc.fieldComp(T, path[0])
+					return []modTarget{{key: k}}
+				}
+			}
+		}
 		if e.Fun == "cells" && len(e.Args) == 1 {
 			if ts, ok := e.Args[0].(*EStr); ok {
 				T, _ := fc.resolveType(ts.Val, env.tpkg)
@@ -1283,4 +1315,98 @@ func (fr *frame) assumeInvariants(h *ssa.BasicBlock, st *State) {
 		g := env.trAssume(c.E)
 		fc.facts = append(fc.facts, Fact{Text: fmt.Sprintf("(assert (=> %s %s))", R, g), Tag: fmt.Sprintf("inv:%d:%s:%d", c.Loop, c.Label, c.Stage)})
 	}
+}
+
+// retryCall: higher-order stub for retry.RetryOnConflict(backoff, fn) and wait.ExponentialBackoff(backoff, cond).
+// TRUSTED: the helper calls the closure one or more times and returns nil only if the LAST call returned nil
+// (resp. done == true, err == nil). Effects: whatever the closure's contract says it modifies, any number of times.
+func (fr *frame) retryCall(v *ssa.Call, resName, full string, ctr *FuncContract, mc *ssa.MakeClosure, st *State, R string) {
+	fc := fr.fc
+	fn := mc.Fn.(*ssa.Function)
+	pre := st.clone()
+	env := fr.closureEnv(ctr, mc, pre, pre)
+	for _, c := range ctr.Requires {
+		g := env.tr(c.E)
+		fc.obls = append(fc.obls, &Obl{Func: fc.key, Kind: "requires", Label: ctr.Key + ":" + c.Label, Site: fr.prefix + "retry", NFacts: len(fc.facts), Path: R, Goal: g.T, Text: c.Text})
+		fc.fact("", "(=> %s %s)", R, g.T)
+	}
+	if ctr.HasMod {
+		for _, m := range ctr.Modifies {
+			fr.havocItem(env, m, st)
+		}
+	} else if !ctr.Pure {
+		// no modifies clause on an effectful closure: nothing is known
+		fr.havocAllKeepFresh(st)
+	}
+	nt := fc.freshConst(fr.prefix+"top", "Int")
+	fc.fact("", "(>= %s %s)", nt, st.comp["TOP"])
+	st.comp["TOP"] = nt
+	// final call of the closure: its results are fresh; the helper's result is nil iff the final call succeeded
+	post := fr.closureEnv(ctr, mc, pre, st)
+	res := fn.Signature.Results()
+	var lastOK string
+	if res.Len() == 1 {
+		e := fc.freshConst(fr.prefix+"lasterr", "Int")
+		post.names["result"] = TV{e, "Int", res.At(0).Type()}
+		post.names["result0"] = post.names["result"]
+		if n := res.At(0).Name(); n != "" {
+			post.names[n] = post.names["result"]
+		}
+		lastOK = fmt.Sprintf("(= %s 0)", e)
+	} else if res.Len() == 2 {
+		d := fc.freshConst(fr.prefix+"lastdone", "Bool")
+		e := fc.freshConst(fr.prefix+"lasterr", "Int")
+		post.names["result"] = TV{d, "Bool", res.At(0).Type()}
+		post.names["result0"] = post.names["result"]
+		post.names["result1"] = TV{e, "Int", res.At(1).Type()}
+		for i := 0; i < 2; i++ {
+			if n := res.At(i).Name(); n != "" {
+				post.names[n] = post.names[fmt.Sprintf("result%d", i)]
+			}
+		}
+		lastOK = fmt.Sprintf("(and %s (= %s 0))", d, e)
+	} else {
+		fc.errf("retry helper: unsupported closure signature")
+		return
+	}
+	for _, c := range ctr.Ensures {
+		if strings.Contains(c.Text, "defined(") {
+			continue
+		}
+		nErr := len(fc.errs)
+		g := post.trAssume(c.E)
+		if len(fc.errs) > nErr {
+			fc.errs = fc.errs[:nErr]
+			continue
+		}
+		fc.facts = append(fc.facts, Fact{Text: fmt.Sprintf("(assert (=> %s %s))", R, g), Tag: "post:" + ctr.Key + ":" + c.Label})
+	}
+	fc.fact("", "(=> %s (=> (= %s 0) %s))", R, resName, lastOK)
+	fc.abstract("retry helper %s: returns nil only if the last call of the closure succeeded (trusted)", full)
+}
+
+// closureEnv: environment for a closure's contract at the place where the closure value is used.
+func (fr *frame) closureEnv(ctr *FuncContract, mc *ssa.MakeClosure, pre, post *State) *Env {
+	fc := fr.fc
+	fn := mc.Fn.(*ssa.Function)
+	env := &Env{fc: fc, tpkg: fc.pkgTypes(ctr.Pkg), names: map[string]TV{}, cur: post, old: pre}
+	binds := map[string]ssa.Value{}
+	for i, fv := range fn.FreeVars {
+		binds[fv.Name()] = mc.Bindings[i]
+	}
+	env.lookup = func(name string, s *State) (TV, bool) {
+		b, ok := binds[name]
+		if !ok {
+			return TV{}, false
+		}
+		if a, ok := fr.addrs[b]; ok {
+			t, T := fc.load(s, a)
+			return TV{t, fc.P.SortOf(T), T}, true
+		}
+		if pt, ok := b.Type().Underlying().(*types.Pointer); ok {
+			return TV{fc.loadHeapValue(s, fr.val(b), pt.Elem()), fc.P.SortOf(pt.Elem()), pt.Elem()}, true
+		}
+		return TV{fr.val(b), fc.P.SortOf(b.Type()), b.Type()}, true
+	}
+	return env
 }
